@@ -255,6 +255,21 @@ func Exec(t *testing.T, sc Scenario, r *evid.Run) *evid.Failure {
 		nextMID := 53000
 		lastLibMID := -1
 		usedMID := map[int]bool{}
+		// respond: the peer's response to rq. A response to a non-confirmable request is itself a
+		// non-confirmable message with an ID of the peer's: like every ID the peer chooses it must not
+		// be one the peer has used before (that would be a duplicate, which legitimately waits for the
+		// handler that still holds the earlier message of that ID)
+		respond := func(rq refcodec.Msg, code int, opts []refcodec.Opt, payload []byte, next *int) refcodec.Msg {
+			m := wire.Respond(w, rq, code, opts, payload, next)
+			if w.Datagram() && m.Type == peer.NON {
+				for usedMID[m.MID] {
+					*next++
+					m.MID = *next & 0xffff
+				}
+				usedMID[m.MID] = true
+			}
+			return m
+		}
 		scan := func() {
 			for _, m := range w.FromLib() {
 				if debug {
@@ -327,7 +342,7 @@ func Exec(t *testing.T, sc Scenario, r *evid.Run) *evid.Failure {
 					key := fmt.Sprintf("%d/%d", e.ID, d)
 					if rq, ok := pendingNested[key]; ok {
 						delete(pendingNested, key)
-						w.ToLib(wire.Respond(w, rq, 69, obsOpts(rq), []byte(fmt.Sprintf("N%d.%d", e.ID, d)), &nextMID))
+						w.ToLib(respond(rq, 69, obsOpts(rq), []byte(fmt.Sprintf("N%d.%d", e.ID, d)), &nextMID))
 						bubble.Wait()
 						scan()
 					}
@@ -376,7 +391,7 @@ func Exec(t *testing.T, sc Scenario, r *evid.Run) *evid.Failure {
 			case "answerapp":
 				if rq, ok := pendingApp[e.ID]; ok {
 					delete(pendingApp, e.ID)
-					w.ToLib(wire.Respond(w, rq, 69, nil, []byte(fmt.Sprintf("A%d", e.ID)), &nextMID))
+					w.ToLib(respond(rq, 69, nil, []byte(fmt.Sprintf("A%d", e.ID)), &nextMID))
 				}
 			case "close":
 				if !closed {
@@ -406,11 +421,11 @@ func Exec(t *testing.T, sc Scenario, r *evid.Run) *evid.Failure {
 			for key, rq := range pendingNested {
 				delete(pendingNested, key)
 				parts := strings.Split(key, "/")
-				w.ToLib(wire.Respond(w, rq, 69, obsOpts(rq), []byte("N"+parts[0]+"."+parts[1]), &nextMID))
+				w.ToLib(respond(rq, 69, obsOpts(rq), []byte("N"+parts[0]+"."+parts[1]), &nextMID))
 			}
 			for j, rq := range pendingApp {
 				delete(pendingApp, j)
-				w.ToLib(wire.Respond(w, rq, 69, nil, []byte(fmt.Sprintf("A%d", j)), &nextMID))
+				w.ToLib(respond(rq, 69, nil, []byte(fmt.Sprintf("A%d", j)), &nextMID))
 			}
 		}
 		bubble.Wait()
